@@ -104,3 +104,73 @@ class copies_share_no_state:
     def witnesses(rng):
         for _ in range(40):
             yield dict(self=_rand_list(rng, rng.choice(BASIC), n=rng.randrange(1, 4)), d=float(rng.choice([1, -5.5])))
+
+
+# ----------------------------------------------------------------------------- bounded: separate charts share no state
+
+from pyvc.bounded import replayer  # noqa: E402
+
+_CHARTS = {
+    "osu": "reamber.osu.OsuMap:OsuMap", "qua": "reamber.quaver.QuaMap:QuaMap", "sm": "reamber.sm.SMMap:SMMap",
+    "bms": "reamber.bms.BMSMap:BMSMap", "o2j": "reamber.o2jam.O2JMap:O2JMap", "base": "reamber.base.Map:Map",
+}
+_SETS = {"sm": "reamber.sm.SMMapSet:SMMapSet", "o2j": "reamber.o2jam.O2JMapSet:O2JMapSet"}
+
+
+def _two_charts_fail(case):
+    """Build chart A, snapshot it, then create / fill / read chart B of the same class: A must not change."""
+    import random
+
+    from contracts.C16_lists import _rand_list
+
+    rng = random.Random(case["seed"])
+    cls = resolve(_CHARTS[case["game"]])
+    out = []
+
+    def snap(m):
+        return {k: (v.df.to_dict("records"), list(v.df.columns), v.df.index.tolist()) for k, v in m.objs.items()}
+
+    a = cls()
+    for name in list(a.objs):
+        setattr(a, name, _rand_list(rng, type(a.objs[name]), n=rng.randrange(1, 4)))
+    before = snap(a)
+    b = cls()
+    how = case["how"]
+    if how == "assign":
+        for name in list(b.objs):
+            setattr(b, name, _rand_list(rng, type(b.objs[name]), n=rng.randrange(0, 4)))
+    elif how == "fresh":
+        pass
+    elif how == "rate":
+        b = a.rate(2.0)
+        for name in list(b.objs):
+            setattr(b, name, _rand_list(rng, type(b.objs[name]), n=1))
+    if snap(a) != before:
+        out.append(("separate_charts_share_no_state", f"{case['game']}: chart A changed after a second chart was made ({how}) and filled"))
+    c = cls()
+    if any(len(v) for v in c.objs.values()):
+        out.append(("new_chart_starts_empty", f"{case['game']}: a new chart starts with {[len(v) for v in c.objs.values()]} rows"))
+    return out
+
+
+def _two_charts(rep, pid):
+    rep.bound = "6 chart classes x 3 ways of making a second chart (assign lists / fresh instance / rate) x seeds"
+    rep.rule = "a case is (class, way, seed); all non-trivial"
+    for game in _CHARTS:
+        for how in ("assign", "fresh", "rate"):
+            for seed in range(rep.n(4, 40)):
+                case = dict(game=game, how=how, seed=seed)
+                rep.case(case)
+                for what, d in _two_charts_fail(case):
+                    rep.fail(what, case, d)
+
+
+@bounded("C14", note="two charts of the same class share no mutable state: filling a second chart never changes the first")
+def separate_charts_share_no_state(rep):
+    _two_charts(rep, "C14")
+
+
+@replayer("separate_charts_share_no_state")
+def _r_two(case, what):
+    hit = [d for w, d in _two_charts_fail(case) if w == what]
+    return (bool(hit), hit[0] if hit else "passes")
